@@ -26,6 +26,7 @@
 #endif
 
 #include <limits.h>
+#include <errno.h>
 #include <iconv.h>
 
 #include "misc.h"
@@ -286,6 +287,11 @@ print_unicode(iconv_t cd, int endian, int unicode, char **p, int n)
 	li = sizeof(in); lo = n;
 
 	r = iconv(cd, &ip, &li, &op, &lo);
+
+	if ((size_t) -1 == r && E2BIG == errno) {
+		/* Buffer too small, do not substitute a space. */
+		goto error;
+	}
 
 	if ((size_t) -1 == r
 	    || (**p == 0x40 && unicode != 0x0040)) {
